@@ -8,7 +8,8 @@ MCTokens == {
   "T_float", "T_oct", "T_hex", "T_sexa", "T_date", "T_ml", "T_ml2", "T_mlind", "T_crlf", "T_uni", "T_dollar", "T_dollar2",
   "T_pct", "T_hash", "T_colon", "T_colon2", "T_dash", "T_lead", "T_trail", "T_empty", "T_space", "T_brace", "T_brack",
   "T_amp", "T_pipe", "T_gt2", "T_bt", "T_q", "T_comma", "T_heredoc", "T_tab", "T_eq", "T_merge", "T_ctrl", "T_ls",
-  "T_long", "T_json", "T_tmplbody", "T_hdrmod", "T_xpath", "T_nl", "T_bang", "T_at" }
+  "T_long", "T_mldollar", "T_json", "T_tmplbody", "T_hdrmod", "T_xpath", "T_nl", "T_bang", "T_at" }
+MCCore   == {"T_dq", "T_bs", "T_tmplq", "T_yes", "T_123", "T_null", "T_ml2", "T_uni", "T_dollar2", "T_colon", "T_trail", "T_empty", "T_merge", "T_ls"}
 MCDelims == {"T_comma1", "T_semi", "T_tab1", "T_pipe1"}
 MCOps    == {"T_gt", "T_lt", "T_eqs", "T_opeq", "T_oplt", "T_opgt"}
 
